@@ -420,6 +420,9 @@ func exec(op string) vlib.Res {
 	if f[0] == "l3" {
 		return execL3(f)
 	}
+	if f[0] == "ev" {
+		return execEv(f)
+	}
 	return execFn(f)
 }
 
@@ -649,7 +652,11 @@ func gen(r *vlib.R, n int, tier string, emit func(string)) {
 		fn = 1500
 	}
 	for fn > 0 {
-		fn -= genFnCase(r, emit)
+		if r.Chance(1, 3) {
+			fn -= genEvCase(r, emit)
+		} else {
+			fn -= genFnCase(r, emit)
+		}
 	}
 }
 
